@@ -34,6 +34,8 @@ def warmup():
     import cv2
     cv2.setNumThreads(1)
     import parse_folder  # noqa
+    from sim import pfworld
+    pfworld.assert_pool_model()
     decworld.execute(decworld.gen_plan(0, 'warm', 0))
     pipeline.execute_c08b(pipeline.gen_plan_c08b(0, 'warm', 0))
     pipeline.execute_c08b(pipeline.gen_plan_c08b(0, 'warm', 3))
